@@ -18,10 +18,7 @@ RECURSIVE IsSubSeq(_, _)
 IsSubSeq(x, y) == IF x = <<>> THEN TRUE ELSE IF y = <<>> THEN FALSE
                   ELSE IF Head(x) = Head(y) THEN IsSubSeq(Tail(x), Tail(y)) ELSE IsSubSeq(x, Tail(y))
 
-\* zero-value query records (closed channels, see IPCQuery.tla) may precede a done: not predicted here
-NoZero(recs) == SelectSeq(recs, LAMBDA r : ~(r.k \in {"ack", "response"} /\ r.n = 0))
-Conforms(a, pred, o0) ==
-  LET o == [o0 EXCEPT !.recs = NoZero(@)] IN
+Conforms(a, pred, o) ==
   /\ pred.rep = o.rep
   /\ \A s \in SeqIds :
        IF a.a = "burst" THEN /\ IsSubSeq(Proj(o.recs, s), Proj(pred.recs, s))
